@@ -112,6 +112,9 @@ func (b *Bytes) Set(src Blob, destStart int64) (n int, err error) {
 
 // Grow implements Blob.
 func (b *Bytes) Grow(offset int64) error {
+	if offset < 0 {
+		return fmt.Errorf("Grow offset must not be negative: %d", offset)
+	}
 	b.mu.Lock()
 	b.bytes = append(b.bytes, make([]byte, offset)...)
 	atomic.StoreInt64(&b.length, int64(len(b.bytes)))
